@@ -34,6 +34,34 @@ block = sb + '\n' + '\n'.join(rows) + '\n' + se
 if sb in text:
     text = text[:text.index(sb)] + block + text[text.index(se) + len(se):]
     open(f'{V}/DESIGN.md', 'w').write(text)
+# ---- section 0: summary table
+tb, te = '<!-- BEGIN SUMMARY (generated) -->', '<!-- END SUMMARY -->'
+rows = ['| property | theorems in `Props/` | stdlib axioms under them | quick check: cases / wall s | seeded changes kept (all caught) | known findings |',
+        '|---|---|---|---|---|---|']
+known = {}
+d1 = f'{V}/known_findings.d'
+for name in sorted(os.listdir(d1)):
+    if name.endswith('.json'):
+        for x in json.load(open(os.path.join(d1, name))).get('findings', []):
+            if x.get('status') == 'known':
+                known.setdefault(x['property'], []).append(x.get('match'))
+for n in range(1, 21):
+    pid = f'C{n:02d}'
+    ep = f'{V}/evidence/{pid}.json'
+    if not os.path.exists(ep):
+        continue
+    ev = json.load(open(ep))
+    cov = ev['coverage']
+    ax = [t[len('stdlib axiom: '):] for t in cov.get('trusted_base', []) if t.startswith('stdlib axiom: ')]
+    nseed = len([x for x in os.listdir(f'{V}/seeded') if x.startswith(pid + '-')])
+    rows.append('| %s | %d | %s | %d / %.0f | %d | %s |' % (
+        pid, cov.get('obligations', 0), 'none' if not ax else 'Reals + classic + funext (via Flocq)',
+        cov.get('evaluations', 0), ev.get('wall_s', 0), nseed, ', '.join('`%s`' % k for k in known.get(pid, [])) or '-'))
+text = open(f'{V}/DESIGN.md').read()
+block = tb + '\n' + '\n'.join(rows) + '\n' + te
+if tb in text:
+    text = text[:text.index(tb)] + block + text[text.index(te) + len(te):]
+    open(f'{V}/DESIGN.md', 'w').write(text)
 # ---- section 10: model-mutation scores
 mb, me = '<!-- BEGIN MODELMUT (generated from evidence/modelmut/*.json) -->', '<!-- END MODELMUT -->'
 rows = ['| property | model files mutated | mutants | killed by the kept cases | survived | did not compile |', '|---|---|---|---|---|---|']
